@@ -26,6 +26,9 @@ pub struct Spec {
     /// latency of the authentication service (login duration)
     auth_ms: u64,
     locale: String,
+    /// the first Keep Alive frame is accepted only this many bytes; the rest not before this time (ms)
+    #[serde(default)]
+    ka_write_stall: Option<(usize, u64)>,
 }
 
 fn echo_of(s: &str) -> Echo {
@@ -52,6 +55,10 @@ fn build(s: &Spec) -> Case {
     case.adapters.disc = DiscPlan::Targets(vec![TargetSpec::new("t7", "10.7.7.7:25577")]);
     case.echo = echo_of(&s.echo);
     case.unsolicited_every = s.unsolicited_every;
+    if let Some((first, until)) = s.ka_write_stall {
+        // clientbound frames: 0 session cookie request, 1 encryption request, 2 login success, 3 first keep-alive
+        case.transport.writes.push(WriteDev { frame: 3, prog: vec![WStep::Accept(first), WStep::Until(until)] });
+    }
     case.horizon_ms = 400_000;
     case
 }
@@ -78,7 +85,9 @@ fn judge(s: &Spec, obs: &Obs) -> Vec<(String, String)> {
         bad("machinery:login-did-not-complete", format!("steps {:?} result {:?}", obs.step_times, obs.result));
         return v;
     };
-    let kas: Vec<(Ms, u64)> = obs.packets.iter().filter_map(|(t, p)| if let Pkt::KeepAlive { id } = p { Some((*t, *id)) } else { None }).collect();
+    // a Keep Alive counts as sent when the transport took its first byte (a socket that stalls in the middle
+    // of the frame is not the server's doing)
+    let kas: Vec<(Ms, u64)> = obs.packets.iter().zip(obs.packet_started.iter()).filter_map(|((_, p), t0)| if let Pkt::KeepAlive { id } = p { Some((*t0, *id)) } else { None }).collect();
     let disconnect: Option<(Ms, Value)> = obs.packets.iter().find_map(|(t, p)| if let Pkt::ConfDisconnect { reason } = p { Some((*t, reason.clone())) } else { None });
     let transfer: Option<(Ms, String, i32)> = obs.packets.iter().find_map(|(t, p)| if let Pkt::Transfer { host, port } = p { Some((*t, host.clone(), *port)) } else { None });
     let end = obs.end_ms;
@@ -198,15 +207,24 @@ fn specs(thorough: bool) -> Vec<Spec> {
                         continue;
                     }
                     for uns in if thorough { vec![None, Some(5_000u64)] } else { vec![None] } {
-                        v.push(Spec { lat: *lat, ci_after: ci, echo: e.to_string(), unsolicited_every: uns, auth_ms: auth, locale: if ci % 20_000 == 0 { "de_de".into() } else { "en_us".into() } });
+                        v.push(Spec { lat: *lat, ci_after: ci, echo: e.to_string(), unsolicited_every: uns, auth_ms: auth, locale: if ci % 20_000 == 0 { "de_de".into() } else { "en_us".into() }, ka_write_stall: None });
                     }
                 }
             }
         }
     }
+    // the socket accepts only part of the first Keep Alive; the rest goes out after the first slow stage
+    // completed (the write is cut short by the completing adapter call) while a second slow stage follows
+    for (lat, until) in [([20_000u64, 20_000, 0], 20_001u64), ([17_000, 0, 40_000], 17_000), ([0, 18_000, 30_000], 18_001), ([16_001, 16_001, 16_001], 16_002)] {
+        for e in ["never", "wrong-id", "prompt", "delay-1000", "delay-15000"] {
+            for first in [1usize, 5, 9] {
+                v.push(Spec { lat, ci_after: 0, echo: e.into(), unsolicited_every: None, auth_ms: 0, locale: "en_us".into(), ka_write_stall: Some((first, until)) });
+            }
+        }
+    }
     if !thorough {
         for e in ["prompt", "never", "delay-15000"] {
-            v.push(Spec { lat: [33_000, 0, 0], ci_after: 10_000, echo: e.into(), unsolicited_every: Some(5_000), auth_ms: 0, locale: "en_us".into() });
+            v.push(Spec { lat: [33_000, 0, 0], ci_after: 10_000, echo: e.into(), unsolicited_every: Some(5_000), auth_ms: 0, locale: "en_us".into(), ka_write_stall: None });
         }
     }
     v
@@ -273,8 +291,8 @@ pub fn run(cli: Cli) -> ! {
     rep.set("exhaustive", json!(true));
     rep.set("rule", json!("product of adapter latencies {0,8,15.999,16,16.001,33,50 s}^3 (quick: at most two slow adapters), Client Information delay {0,10,16,20,40 s}, echo policy (prompt, delayed by d around the period, never, wrong id, duplicate, first-k-only, unsolicited every 5 s), login duration {0,20 s}; one connection each under virtual time; distinct_nontrivial = distinct timed clientbound traces"));
     rep.sample(json!({"spec": all[0]}));
-    rep.sample(json!({"spec": Spec { lat: [33_000, 0, 0], ci_after: 0, echo: "delay-15999".into(), unsolicited_every: None, auth_ms: 0, locale: "en_us".into() }, "expect": "Keep Alive at 16 s and 32 s, Transfer at 33 s"}));
-    rep.sample(json!({"spec": Spec { lat: [50_000, 0, 0], ci_after: 0, echo: "wrong-id".into(), unsolicited_every: None, auth_ms: 0, locale: "de_de".into() }, "expect": "Keep Alive at 16 s, timeout Disconnect (German) at 32 s"}));
+    rep.sample(json!({"spec": Spec { lat: [33_000, 0, 0], ci_after: 0, echo: "delay-15999".into(), unsolicited_every: None, auth_ms: 0, locale: "en_us".into(), ka_write_stall: None }, "expect": "Keep Alive at 16 s and 32 s, Transfer at 33 s"}));
+    rep.sample(json!({"spec": Spec { lat: [50_000, 0, 0], ci_after: 0, echo: "wrong-id".into(), unsolicited_every: None, auth_ms: 0, locale: "de_de".into(), ka_write_stall: None }, "expect": "Keep Alive at 16 s, timeout Disconnect (German) at 32 s"}));
     rep.assume("time is tokio's paused clock; real-valued time is represented by the +-1 ms neighbours of the period");
     rep.assume("an echo emitted at exactly the instant the next Keep Alive is due, and routing completing at exactly that instant, are outside the statement and not judged");
     rep.assume("'before the next one is due' is read off the observed log: a drop is only judged wrong if the echo was emitted strictly before the Disconnect; a silent client must be gone 16 s after the unechoed Keep Alive");
